@@ -364,17 +364,18 @@ qp_header(const char *buf, const off_t len, cstring *boundary, int *multipart, c
 					if (ctype.len) {
 						ctype.s = cr;
 						off += ctype.len - 2;
+						break;
 					}
-					break;
 				} else if ((rest >= (off_t)strlen(content_tr_enc)) &&
 						!strncasecmp(cr + 1, content_tr_enc, strlen(content_tr_enc))) {
 					cenc.len = getfieldlen(cr, len - off);
 					if (cenc.len) {
 						cenc.s = cr;
 						off += cenc.len - 2;
+						break;
 					}
-					break;
 				}
+				/* a field that runs to the end of the data is skipped like any other line */
 			}
 			/* fallthrough */
 		default:
